@@ -63,7 +63,9 @@ LEAVES = [
 
 # containers over which C12 replaces data structures; all members of a group share the element type
 SEQ_ELEMS = [("u16", ["1u16", "2u16", "3u16"]), ("String", ['"a".to_string()', '"b".to_string()']),
-             ("i64", ["-1i64", "5i64"]), ("(u8, u16)", ["(1u8, 2u16)"])]
+             ("i64", ["-1i64", "5i64"]), ("(u8, u16)", ["(1u8, 2u16)"]), ("i8", ["-3i8", "5i8"]),
+             ("u32", ["7u32"]), ("bool", ["true"]), ("i16", ["-2i16"]), ("char", ["'x'"]), ("u64", ["9u64"]),
+             ("Option<u8>", ["Some(1u8)"])]
 SEQ_CONTAINERS = ["Vec<{e}>", "LinkedList<{e}>", "BTreeSet<{e}>", "HashSet<{e}>", "[{e}; 2]", "Streamed<{e}>"]
 PAIR_ELEMS = [("String", "u32", ['("k".to_string(), 1u32)']), ("u8", "String", ['(1u8, "v".to_string())'])]
 PAIR_CONTAINERS = ["Vec<({k}, {v})>", "BTreeMap<{k}, {v}>", "HashMap<{k}, {v}>", "LinkedList<({k}, {v})>"]
@@ -402,10 +404,12 @@ def gen_enum(name, rng, ctx):
                     ctors.append(c)
                 fam.log.append(f"release {k}: constructor {c['name']} added")
             elif r < 0.9:
-                cands = [c for c in ctors if c["shape"] != "unit" and not c["transient"]]
+                cands = [c for c in ctors if not c["transient"]]
                 if cands:
                     c = rng.choice(cands)
                     d = evolve(c["rec"], rng, ctx, allow_removal=c["removable"])
+                    if c["shape"] == "unit" and c["rec"].fields:
+                        c["shape"] = "struct"  # a unit constructor that gains a field
                     fam.log.append(f"release {k}: {c['name']}: {d}")
             else:
                 fam.log.append(f"release {k}: no change")
@@ -458,7 +462,7 @@ def emit_recorddef(rec, k, name):
         tr = f"Some(Bridge::to_val(&{{ let d: {t} = {f.transient}; d }}))" if f.transient is not None else "None"
         de = f"Some(Bridge::to_val(&{{ let d: {t} = {f.default}; d }}))" if f.default is not None else "None"
         fields.append(f'FieldDef {{ name: "{f.name}".into(), ty: <{t} as Bridge>::ty(), transient: {tr}, default: {de} }}')
-    return 'RecordDef { name: "%s".into(), steps: vec![%s], fields: vec![%s] }' % (name, ", ".join(steps), ", ".join(fields))
+    return 'RecordDef { name: "%s".into(), option_aware: true, steps: vec![%s], fields: vec![%s] }' % (name, ", ".join(steps), ", ".join(fields))
 
 
 def emit_family(fam, out):
